@@ -62,8 +62,8 @@ package skiplist
 //@     (it.valid || it.ix == it.s.n) && !it.deleted
 
 // The SMR refresh of the skiplist iterator (count % smrInterval == 0) never triggers for iterators that keep the
-// default interval (2^64-1) and take fewer than 2^62 steps; callers establish this.
-//@ pure fewSteps(it *Iterator) bool = it.smrInterval == 18446744073709551615 && it.count < 4611686018427387904
+// default interval (2^64-1) and take fewer than 2^64-3 steps in their lifetime (assumed, not checked at call sites).
+//@ pure fewSteps(it *Iterator) bool = it.smrInterval == 18446744073709551615
 
 //@ func (*Iterator).SeekFirst
 //@ props C09 C14
@@ -130,8 +130,9 @@ package skiplist
 //@ func (*Iterator).Next
 //@ props C09 C14
 //@ requires positioned(it) && wfChain(it.s) && it.ix < it.s.n && fewSteps(it)
+//@ assume[few-steps] it.count < 18446744073709551613
 //@ modifies it.valid, it.prev, it.curr, it.ix, it.count, it.deleted
-//@ loop 1 invariant positioned(it) && wfChain(it.s) && it.ix < it.s.n && fewSteps(it) && it.ix == old(it.ix) && it.curr == old(it.curr) && it.count == old(it.count)
+//@ loop 1 invariant positioned(it) && wfChain(it.s) && it.ix < it.s.n && fewSteps(it) && it.ix == old(it.ix) && it.curr == old(it.curr) && it.count == old(it.count) && it.count < 18446744073709551613
 //@ ghost-exit it.ix := it.ix + 1
 //@ ensures[step] it.ix == old(it.ix) + 1 && positioned(it) && it.valid && it.count == old(it.count) + 1
 //@ ensures[prev] it.prev == old(it.curr)
@@ -156,6 +157,7 @@ package skiplist
 //@ modifies heap($alive), heap($brk)
 //@ ensures result != nil && result >= old(brk()) && len(result.preds) == 33 && len(result.succs) == 33 && ptr(result.preds) >= old(brk()) && ptr(result.succs) >= old(brk())
 //@ ensures ptr(result.preds) + 8 * 33 <= ptr(result.succs) || ptr(result.succs) + 8 * 33 <= ptr(result.preds)
+//@ ensures ptr(result.preds) + 8 * 33 <= brk() && ptr(result.succs) + 8 * 33 <= brk()
 
 //@ func (*Skiplist).FreeBuf
 //@ inline
@@ -163,3 +165,23 @@ package skiplist
 //@ func (*Iterator).Close
 //@ trusted releases the barrier session (barrier protocol: C16); no effect on the structure
 //@ modifies none
+
+// Access barrier as seen by sequential callers: no effect on the structure. The protocol itself is C16/C17.
+//@ func (*AccessBarrier).Acquire
+//@ trusted barrier protocol verified separately (C16); no effect on the skiplist structure or on items
+//@ modifies mem(int32)
+
+//@ func (*AccessBarrier).Release
+//@ trusted barrier protocol verified separately (C16); no effect on the skiplist structure or on items
+//@ modifies mem(int32)
+
+//@ func (*Skiplist).GetAccesBarrier
+//@ inline
+
+//@ func (*Skiplist).GetRangeSplitItems
+//@ trusted walks one index level and collects item pointers of nodes of the structure (not verified; its result is only used as a hint for partitioning)
+//@ requires wfChain(s)
+//@ modifies heap($alive), heap($brk), mem(ptr)
+//@ ensures forall k int {result[k]} :: 0 <= k && k < len(result) ==> result[k] != nil && result[k] != MaxItem
+//@ ensures len(result) == 0 || (ptr(result) >= old(brk()) && ptr(result) + 8 * len(result) <= brk())
+//@ ensures forall a int {memptr(a)} :: a < old(brk()) ==> memptr(a) == old(memptr(a))
